@@ -23,6 +23,7 @@ import core
 from ser import Ser, Unsupported, rat
 
 LEAN_MODULE = "Optyx.Props.C11"
+EXTRA_MODULES = ["Optyx.Props.PinsC11"]   # transcription anchors (harness/source_pins.py)
 THEOREMS = [
     "Optyx.Props.C11.getitem_denote",
     "Optyx.Props.C11.slice_denote",
@@ -53,6 +54,7 @@ THEOREMS = [
     "Optyx.Props.C11.diagMatrix_entry",
     "Optyx.Props.C11.shape_mismatch_raises",
     "Optyx.Props.C11.distinct_preserved",
+    "Optyx.Props.PinsC11.anchors",
 ]
 ASSUMPTIONS = [
     "values are reals; IEEE rounding and NumPy's summation order are not modelled (recipes use small integers so all three interpretations are exact)",
